@@ -709,6 +709,52 @@ def check_deep_tiny(rep, pid, stats):
                 rep.violation("impl-vs-spec", f"`{cmd}` on a drawn tiny position stopped at depth {max(depths) if depths else 0} instead of {lim}", "", replay_ops=replay)
 
 
+# ----------------------------------------------------------------------------------------- stop before the first iteration, on the binary (C07)
+
+def check_immediate_stop(rep, stats):
+    """`go` answered by `stop` BEFORE the search thread has done anything (its start is stretched through the schedule
+    point, so the flag is down at the first poll), and `go movetime 1`: whatever the engine announces must be a legal
+    move of the position on the board, judged by the Lean rules — `none` only when there is no legal move. Runs on the
+    real binary and needs neither the in-process harness nor the model."""
+    from . import searchchk, roots
+    fens = [roots.START, BLACK_FEN, "k7/2P5/1K6/8/8/8/8/8 w - - 0 1", "7k/5Q2/5K2/8/8/8/8/8 w - - 0 1",
+            "r3k2r/p1ppqpb1/bn2pnp1/3PN3/1p2P3/2N2Q1p/PPPBBPPP/R3K2R w KQkq - 0 1"] + [f for f in roots.ALL[3:40:4]]
+    got = []
+    for i, fen in enumerate(fens):
+        for cmd, env in (("go infinite", {"RUSTYBAIT_VERIF_SEARCH_THREAD_START_MS": 40}), ("go movetime 1", {}), ("go infinite", {})):
+            e = Engine(env=env)
+            try:
+                if e.sync(20) is None:
+                    continue
+                e.send("position fen " + fen)
+                e.send(cmd)
+                if cmd == "go infinite":
+                    e.send("stop")
+                lines, ok, eof = e.read_until(lambda l: l.startswith("bestmove"), 8)
+                stats["immediate_stops"] += 1
+                replay = ["env %s" % env, "position fen " + fen, cmd] + (["stop"] if cmd == "go infinite" else [])
+                if not ok:
+                    rep.violation("impl-vs-spec", f"`{cmd}` stopped at once: no bestmove within 8 s @ {core.fen4(fen)}", "", replay_ops=replay)
+                    continue
+                got.append((core.fen4(fen), (lines[-1][1].split() + ["none"])[1], replay))
+            finally:
+                e.close()
+    q = []
+    for f4, bm, _ in got:
+        q.append("spec_status " + f4)
+        if bm != "none":
+            q.append("spec_line %s %s" % (bm, f4))
+    ans = searchchk.spec_queries(q)
+    for f4, bm, replay in got:
+        st = ans.get("spec_status " + f4)
+        nlegal = int(st.split()[0]) if st and st.split()[0].isdigit() else -1
+        if bm == "none":
+            if nlegal > 0:
+                rep.violation("impl-vs-spec", f"stopped before the first iteration: `bestmove none` although {nlegal} legal moves exist @ {f4}", "", replay_ops=replay)
+        elif ans.get("spec_line %s %s" % (bm, f4)) != "ok":
+            rep.violation("impl-vs-spec", f"stopped before the first iteration: announced move {bm} is not legal @ {f4}", "", replay_ops=replay)
+
+
 # ----------------------------------------------------------------------------------------- stop promptness on the binary (C07)
 
 def check_stop_promptness(rep, stats):
